@@ -9,32 +9,11 @@
 From Slsk Require Import Base.Tac.
 From Slsk Require Import C19.Spec C19.Model C19.Proofs.
 
-(* Joined flag, user list, owner, member set, tickers, privacy flag (incl. which rooms are known),
-   and every user's status, stats and privileges equal the replay - for ALL notification lists. *)
-Theorem C19_fold_partial : forall me bl s0 ms r u,
-  agrees_but_operators me bl s0 ms r u /\
-  (forallb (fun m => negb (own_grant me r u m)) ms = true -> operators_agree me bl s0 ms r u).
-Proof. intros. split; [apply fold_but_operators|apply fold_operators_partial]. Qed.
-
-(* The operator set does NOT equal the replay in general: the handler of the own operator grant
-   (PrivateRoomOperatorGranted) discards the own name instead of adding it (finding F24). *)
-Theorem C19_fold_refuted : exists me bl s0 ms r u, ~ operators_agree me bl s0 ms r u.
-Proof. exact fold_operators_refuted. Qed.
-
-(* With that one handler repaired (proposed_fixes/F24.diff) the full statement holds. *)
-Theorem C19_fold_if_repaired : forall me bl s0 ms r u,
-  let s := fold_repaired me bl s0 ms in
-  q_private s r = replay (private_step bl r) (q_private s0 r) ms /\
-  q_joined s r = replay (joined_step r) (q_joined s0 r) ms /\
-  q_inroom s r u = replay (inroom_step r u) (q_inroom s0 r u) ms /\
-  q_owner s r = replay (owner_step me r) (q_owner s0 r) ms /\
-  q_member s r u = replay (member_step me r u) (q_member s0 r u) ms /\
-  q_operator s r u = replay (operator_step me r u) (q_operator s0 r u) ms /\
-  q_ticker s r u = replay (ticker_step r u) (q_ticker s0 r u) ms /\
-  q_status s u = replay (status_step u) (q_status s0 u) ms /\
-  q_stats s u = replay (stats_step u) (q_stats s0 u) ms /\
-  q_privileged s u = replay (privileged_step u) (q_privileged s0 u) ms.
-Proof. exact fold_if_repaired. Qed.
+(* Known/privacy flag, joined flag, user list, owner, member set, OPERATOR SET, tickers, and every
+   user's status, stats and privileges equal the replay - for ALL notification lists, with no side
+   condition (the own-operator-grant handler was repaired: F24). *)
+Theorem C19_fold : forall me bl s0 ms r u, agrees me bl s0 ms r u.
+Proof. exact fold_agrees. Qed.
 
 (* Every notification is reported with the label, room and user it was announced for - and a
    message of a user blocked for that kind is not reported. *)
@@ -57,9 +36,8 @@ Proof. exact wf_state_init. Qed.
 
 Example C19_fold_nonvacuous :
   let ms := [RoomListM [0] [1] [] [1]; JoinRoomM 1 [(1, (2%Z, (5, 0, 7, 1)%Z)); (2, (1%Z, (0, 0, 0, 0)%Z))] (Some 0) [2];
-             OpGrantM 1 1; OpRevokeM 1 2; TickerAddM 1 1 3; LeaveRoomM 1; UserJoinedM 1 2 2%Z (1, 1, 1, 1)%Z] in
-  forallb (fun m => negb (own_grant 0 1 1 m)) ms = true /\
-  q_operator (fold 0 [] (init_state 0) ms) 1 1 = true /\ q_operator (fold 0 [] (init_state 0) ms) 1 2 = false /\
+             OpGrantM 1 1; OpGrantedM 1; OpRevokeM 1 2; TickerAddM 1 1 3; LeaveRoomM 1; UserJoinedM 1 2 2%Z (1, 1, 1, 1)%Z] in
+  q_operator (fold 0 [] (init_state 0) ms) 1 1 = true /\ q_operator (fold 0 [] (init_state 0) ms) 1 0 = true /\ q_operator (fold 0 [] (init_state 0) ms) 1 2 = false /\
   q_owner (fold 0 [] (init_state 0) ms) 1 = Some 0 /\ q_inroom (fold 0 [] (init_state 0) ms) 1 2 = true /\
   q_private (fold 0 [] (init_state 0) ms) 0 = Some false /\ q_private (fold 0 [] (init_state 0) ms) 1 = Some true /\
   q_status (fold 0 [] (init_state 0) ms) 2 = 2%Z.
